@@ -155,9 +155,13 @@ async def drive_calls(proxy, calls, out, caller, await_results=True, pre=None, w
                 f.cancel()
         return
     for cid, f in futs:
+        if asyncio.isfuture(f) and f.get_loop() is not asyncio.get_running_loop():
+            # the caller was handed a future of somebody else's loop: it cannot be awaited here
+            out[cid] = ("foreign-loop-future", None, me)
+            continue
         f = asyncio.ensure_future(f)
         if world is not None:
-            done, _ = await asyncio.wait([f], timeout=3)
+            done, _ = await asyncio.wait([f], timeout=1.5)
             if not done and kinds[cid] in world["target"].finished:
                 # The body has ended on the owner's loop.  Whatever relays its outcome was queued on the owner loop
                 # before anything we submit now, and hands over to this loop with call_soon_threadsafe: after two round
@@ -289,6 +293,9 @@ async def run_script(plan, r: Result):
                     continue
                 if state == "stopped":
                     continue  # only thread identity is asserted (above): nothing may run anywhere else
+                if got is not None and got[0] == "foreign-loop-future":
+                    r.bad("C20:result-delivered-on-wrong-loop", f"{kind}({arg}) from {caller}: the future handed to the caller belongs to another event loop")
+                    return crossed
                 if got is not None and got[0] == "never-delivered":
                     r.bad("C20:coroutine-outcome-never-delivered" + (":base-exception" if kind == "coro_raise_base" else ""),
                           f"{kind}({arg}) from {caller}: the body ended on the owner's loop, the caller's future never completed")
@@ -569,4 +576,4 @@ def _worker(ctx, n):
 
 def run(ctx):
     quick = ctx.tier == "quick"
-    ctx.parallel(_worker, [40] * 16 if quick else [2500] * 16)
+    ctx.parallel(_worker, [70] * 16 if quick else [2500] * 16)
